@@ -170,15 +170,28 @@ def _scf(case):
     if m == "ccsd":
         obj = cc.CCSD(mf)
         obj.frozen = int(case["norb_frozen"]) or None
-        obj.conv_tol = 1e-10
+        obj.conv_tol = 1e-11
+        obj.conv_tol_normt = 1e-8
+        obj.max_cycle = 300
         obj.verbose = 0
         obj.kernel()
     elif m == "uccsd":
         obj = cc.UCCSD(mf)
-        obj.conv_tol = 1e-10
+        obj.conv_tol = 1e-11
+        obj.conv_tol_normt = 1e-8
+        obj.max_cycle = 300
         obj.verbose = 0
         obj.kernel()
     return mol, mf, obj, None
+
+
+def _lowest(fci, h1, eri, norb, nelec, ecore):
+    """Lowest eigenvalue in the (n_up, n_dn) sector: several roots, so that the answer does not depend on which spin state the Davidson
+    guess happens to favour in a given orbital basis (singlet/triplet near-degeneracies of stretched rings)."""
+    dim = int(__import__("math").comb(norb, nelec[0]) * __import__("math").comb(norb, nelec[1]))
+    nroots = min(4, dim)
+    e, _ = fci.direct_spin1.kernel(h1, eri, norb, nelec, ecore=ecore, tol=1e-12, max_cycle=400, nroots=nroots)
+    return float(np.min(e))
 
 
 def body(ctx, case):
@@ -255,7 +268,7 @@ def body(ctx, case):
             ctx.fail(f"interface:raised-{type(e).__name__}:{m}:frozen={nfrozen}:basis={case['basis_choice']}", case, f"{type(e).__name__}: {str(e)[:300]}")
             return
     e_est = float(pd["e_estimate"])
-    tol = 2 * chol_cut * max(4, sum(nelec)) ** 2 + 2e-8
+    tol = 2 * chol_cut * max(4, sum(nelec)) ** 2 + (2e-8 if ccobj is None else 2e-7)
     ref = ccobj.e_tot if ccobj is not None else mf.e_tot
     label = "cc-energy" if ccobj is not None else "mean-field-energy"
     err = abs(e_est - ref)
@@ -270,21 +283,22 @@ def body(ctx, case):
     if norb_corr <= 8 and m != "df-rhf":
         na, nb = (want_ne + want_ms) // 2, (want_ne - want_ms) // 2
         eri = np.einsum("gij,gkl->ijkl", chol, chol)
-        e_written, _ = fci.direct_spin1.kernel(h1, eri, nmo, (na, nb), ecore=h0, tol=1e-12, max_cycle=300)
+        e_written = _lowest(fci, h1, eri, nmo, (na, nb), h0)
         if m == "lattice":
-            e_ref, _ = fci.direct_spin1.kernel(integrals["h1"], np.einsum("ijkl->ijkl", __import__("pyscf").ao2mo.restore(1, integrals["h2"], nmo)), nmo, (na, nb), ecore=0.0, tol=1e-12, max_cycle=300)
+            e_ref = _lowest(fci, integrals["h1"], __import__("pyscf").ao2mo.restore(1, integrals["h2"], nmo), nmo, (na, nb), 0.0)
         elif nfrozen:
             mc = mcscf.CASCI(mf, mol.nao - nfrozen, mol.nelectron - 2 * nfrozen)
             mc.verbose = 0
             mc.fcisolver.conv_tol = 1e-12
-            e_ref = mc.kernel(mf.mo_coeff if not isinstance(mf.mo_coeff, (list, tuple)) and np.ndim(mf.mo_coeff) == 2 else mf.mo_coeff[0])[0]
+            mc.fcisolver.nroots = 4
+            e_ref = float(np.min(mc.kernel(mf.mo_coeff if not isinstance(mf.mo_coeff, (list, tuple)) and np.ndim(mf.mo_coeff) == 2 else mf.mo_coeff[0])[0]))
         else:
             from pyscf import ao2mo
 
             C = mf.mo_coeff if np.ndim(mf.mo_coeff) == 2 else mf.mo_coeff[0]
             h1m = C.T @ mf.get_hcore() @ C
             erim = ao2mo.restore(1, ao2mo.kernel(mol, C), mol.nao)
-            e_ref, _ = fci.direct_spin1.kernel(h1m, erim, mol.nao, (na, nb), ecore=mol.energy_nuc(), tol=1e-12, max_cycle=300)
+            e_ref = _lowest(fci, h1m, erim, mol.nao, (na, nb), mol.energy_nuc())
         ctx.count("fci-clause-checked")
         errf = abs(e_written - e_ref)
         ctx.err(f"|E_FCI(written H) - E_FCI(pyscf)| / tol [{m}]", errf / tol)
